@@ -81,9 +81,199 @@ fn snap_sorted(m: &HashMap<String, ReplicatedValue>) -> Vec<(String, MRv)> {
     v
 }
 
+
+/// every place of the anchored files that CREATES or ADVANCES a stamp, counted in the source the
+/// binary was built against and compared with the op table of the model (`Model/Replica.lean`):
+/// a new `tick()` / `update()` / clock construction / direct assignment to `.time` that no model
+/// op accounts for changes a count and fails the check
+fn stamp_sites(out: &mut Out) {
+    use crate::c06msg::{non_test, read_src, repo_dir};
+    // (file, pattern, expected count, model op(s) that transcribe these sites)
+    let table: [(&str, &str, usize, &str); 12] = [
+        ("src/replication/lattice.rs", ".tick()", 2, "LwwRegister::set / delete tick the clock they are handed → Lww.set / Lww.delete with `clock.tick` in recordWrite, recordDelete, hashSetStep, hashDelStep"),
+        ("src/replication/lattice.rs", ".time += ", 1, "LamportClock::tick → Stamp.tick"),
+        ("src/replication/lattice.rs", ".time = ", 1, "LamportClock::update → Stamp.update"),
+        ("src/replication/lattice.rs", "LamportClock::new(", 1, "LwwRegister::new → Lww.new (time 0)"),
+        ("src/replication/state/replicated_value.rs", ".tick()", 1, "ReplicatedValue::delete, hash arm: one fresh stamp for every field → recordDelete (.hash)"),
+        ("src/replication/state/replicated_value.rs", "LamportClock::new(", 2, "ReplicatedValue::new / with_crdt → RV.new (stamp (0, rid))"),
+        ("src/replication/state/replicated_value.rs", ".time = ", 0, "no direct assignment to a clock time (self.timestamp = *clock copies a ticked clock)"),
+        ("src/replication/state/shard_state.rs", ".update(", 1, "apply_remote_delta → Shard.applyRemote (clock := update clock delta.ts)"),
+        ("src/replication/state/shard_state.rs", "LamportClock::new(", 1, "ShardReplicaState::new → Shard.init (clock (0, rid))"),
+        ("src/replication/state/shard_state.rs", ".tick()", 0, "the shard never ticks directly: through ReplicatedValue / LwwRegister"),
+        ("src/production/replicated_shard_actor.rs", "lamport_clock.update(", 1, "ApplyRecoveredState → Shard.applyRecovered (clock := update clock value.ts)"),
+        ("src/production/replicated_shard_actor.rs", ".tick()", 0, "the actor never ticks a Lamport clock itself"),
+    ];
+    let mut rows = Vec::new();
+    for (file, pat, want, op) in table {
+        let Some(src) = read_src(file) else {
+            out.violation("C08:coverage:source-scan-failed", "an anchored source file could not be read from the tree the harness was built against", json!({"file": file, "tree": repo_dir()}));
+            continue;
+        };
+        let lib = non_test(&src);
+        let lib = match lib.find("#[cfg(kani)]") { Some(i) => &lib[..i], None => lib };
+        let got = lib.lines().filter(|l| !l.trim_start().starts_with("//")).map(|l| l.matches(pat).count()).sum::<usize>();
+        rows.push(json!({"file": file, "pattern": pat, "sites": got, "model": op}));
+        if got != want {
+            out.violation(
+                &format!("C08:coverage:stamp-site-not-modelled:{}:{}", file.rsplit('/').next().unwrap_or(file), pat.trim()),
+                "the number of places that create / advance a Lamport stamp differs from the op table of the model: a new site must get a model op (or the table must say why not)",
+                json!({"file": file, "pattern": pat, "expected": want, "found": got, "model_op": op}),
+            );
+        }
+    }
+    out.extra.insert("stamp_sites(from the source)".into(), json!(rows));
+}
+
+/// the Lamport time at the u64 boundary on a real `ShardReplicaState`: a peer's delta stamped
+/// MAX-2 / MAX-1 / MAX, then local writes.  Which arithmetic the build uses (checked: panic,
+/// wrapping: release) is observed, told to the model (`KU`), and the property is evaluated:
+/// a write acknowledged after the node stored a value must be stamped above it.
+fn clock_boundary(out: &mut Out) {
+    use std::panic::{catch_unwind, AssertUnwindSafe};
+    let prev = std::panic::take_hook();
+    std::panic::set_hook(Box::new(|_| {}));
+    // which profile was the dependency built with?
+    let checked = catch_unwind(|| {
+        let mut c = redis_sim::replication::lattice::LamportClock { time: std::hint::black_box(u64::MAX), replica_id: ReplicaId::new(1) };
+        c.tick().time
+    })
+    .is_err();
+    let mut rows = Vec::new();
+    for back in [3u64, 2, 1, 0] {
+        let t = u64::MAX - back;
+        let mut st = ShardReplicaState::new(ReplicaId::new(1), ConsistencyLevel::Eventual);
+        let v = MRv { crdt: MCrdt::Lww(MLww { v: Some(b"peer".to_vec()), t, r: 2, tomb: false }), vc: None, exp: None, t, r: 2, rf: None };
+        let mut ops: Vec<String> = vec![format!("U {}", t)];
+        let mut outcome: Vec<String> = Vec::new();
+        let r = catch_unwind(AssertUnwindSafe(|| st.apply_remote_delta(ReplicationDelta::new("k".into(), v.to_real(), ReplicaId::new(2)))));
+        let mut dead = r.is_err();
+        outcome.push(if dead { "overflow".into() } else { st.lamport_clock.time.to_string() });
+        out.op(format!("KU {} 0 1 {}", checked as u8, ops.join(" ")), outcome.last().unwrap().clone());
+        let mut stale: Option<(u64, u64)> = None;
+        for w in 0..2 {
+            if dead {
+                break;
+            }
+            ops.push("T".into());
+            let r = catch_unwind(AssertUnwindSafe(|| st.record_write("k".into(), SDS::from_str("mine"), None)));
+            match r {
+                Ok(d) => {
+                    let ts = d.value.timestamp.time;
+                    outcome.push(ts.to_string());
+                    if ts <= t {
+                        stale = Some((ts, t));
+                    }
+                }
+                Err(_) => {
+                    dead = true;
+                    outcome.push("overflow".into());
+                }
+            }
+            out.op(format!("KU {} 0 {} {}", checked as u8, ops.len(), ops.join(" ")), outcome.last().unwrap().clone());
+            let _ = w;
+        }
+        out.count("clock-boundary");
+        rows.push(json!({"peer_stamp": format!("u64::MAX-{}", back), "outcomes(update, write, write)": outcome.clone()}));
+        if dead || stale.is_some() {
+            out.violation(
+                "C08:clock:u64-overflow",
+                "after a peer's delta stamped at the top of the u64 range the node cannot stamp its next write above what it stored: the checked build panics in LamportClock::update / tick (the shard actor dies), the release build wraps the clock to 0 (the write is stamped below the stored value and loses everywhere)",
+                json!({"peer_delta_time": format!("u64::MAX-{}", back), "arithmetic": if checked { "checked (overflow-checks = true, the harness profile)" } else { "wrapping (release)" }, "outcomes": outcome, "stale": stale.map(|(a, b)| vec![a, b])}),
+            );
+        }
+    }
+    std::panic::set_hook(prev);
+    out.extra.insert("clock_u64_boundary".into(), json!({"arithmetic_of_this_build": if checked { "checked" } else { "wrapping" }, "cases": rows}));
+    out.case("clock-boundary", true);
+}
+
+/// every mailbox message of the replicated shard actor and every `pub fn` of the replicated front
+/// end, from the source the binary was built against: driven (with the counter that proves it ran
+/// in THIS run) or explained
+fn mailbox_coverage(out: &mut Out) {
+    use crate::c06msg::{non_test, read_src, repo_dir, scan_enum, scan_pub_fns};
+    let mut table: BTreeMap<String, String> = BTreeMap::new();
+    let (Some(actor), Some(state)) = (read_src("src/production/replicated_shard_actor.rs"), read_src("src/production/replicated_state.rs")) else {
+        out.violation("C08:coverage:source-scan-failed", "an anchored source file could not be read from the tree the harness was built against", json!({"tree": repo_dir()}));
+        return;
+    };
+    // name → (counter that must be > 0 in this run, or "" when explained), text
+    let how = |n: &str| -> Option<(&'static str, &'static str)> {
+        Some(match n {
+            "ReplicatedShardMessage::Execute" => ("effective-local-write", "every local command of every history"),
+            "ReplicatedShardMessage::ExecuteReadonly" => ("msg:ExecuteReadonly", "single-actor histories; must not touch the replication state"),
+            "ReplicatedShardMessage::ApplyRemoteDelta" => ("op:remote", "remote deltas / recovered deltas"),
+            "ReplicatedShardMessage::DrainPendingDeltas" => ("msg:DrainPendingDeltas", "single-actor histories; C06 message level (collect_pending_deltas)"),
+            "ReplicatedShardMessage::EvictExpired" => ("msg:EvictExpired", "moves the executor's clock only; the replication state and the Lamport clock must not change"),
+            "ReplicatedShardMessage::GetSnapshot" => ("op:snap", "every observation"),
+            "ReplicatedShardMessage::ApplyRecoveredState" => ("recover:checkpoint", "restarts that recover checkpoint values"),
+            "ReplicatedShardMessage::Shutdown" => ("op:restart", "every restart"),
+            "ReplicatedShardedState::new" | "ReplicatedShardedState::with_time_source" => ("sys:restart", "every system-level state (new delegates to with_time_source)"),
+            "ReplicatedShardedState::with_gossip_actor" | "ReplicatedShardedState::with_gossip_actor_and_time" => ("", "C06 message level (sharded_state with the actor backend)"),
+            "ReplicatedShardedState::set_delta_sink" => ("sys:restart", "how the system histories capture the shipped deltas"),
+            "ReplicatedShardedState::clear_delta_sink" | "ReplicatedShardedState::has_streaming_persistence" | "ReplicatedShardedState::set_wal_handle" | "ReplicatedShardedState::clear_wal_handle" => ("", "persistence wiring: C09 / C11 / C12"),
+            "ReplicatedShardedState::execute" => ("sys:restart", "every system-level command; the multi-key front end is C06's scenario (known finding C06:front-end:multi-key-routed-by-first-key)"),
+            "ReplicatedShardedState::apply_remote_deltas" => ("sys:op:remote", "gossip from a peer in the system histories; second half of apply_recovered_state"),
+            "ReplicatedShardedState::apply_recovered_state" => ("sys:restart", "every split of every system history"),
+            "ReplicatedShardedState::collect_pending_deltas" => ("", "C06 message level (incl. a burst over MAX_PENDING_DELTAS on one shard)"),
+            "ReplicatedShardedState::evict_expired_all_shards" => ("sys:evict", "system sweep: must leave every shard's replication state and clock alone; NO caller in the binaries (the TTL manager serves ShardedActorState only): on a replicated node the executor's clock never moves, a TTL never fires"),
+            "ReplicatedShardedState::snapshot_state" => ("sys:restart", "every observation of the system histories"),
+            "ReplicatedShardedState::key_count" => ("sys:evict", "system sweep (= number of keys of snapshot_state)"),
+            "ReplicatedShardedState::time_source" | "ReplicatedShardedState::gossip_backend" | "ReplicatedShardedState::get_gossip_state" | "ReplicatedShardedState::gossip_actor_handle" | "ReplicatedShardedState::is_actor_based" | "ReplicatedShardedState::config" | "ReplicatedShardedState::num_shards" => ("", "accessors (the gossip ones are used by C06's message level)"),
+            _ => return None,
+        })
+    };
+    let mut names: Vec<String> = scan_enum(non_test(&actor), "ReplicatedShardMessage").into_iter().map(|v| format!("ReplicatedShardMessage::{}", v)).collect();
+    names.extend(scan_pub_fns(&state, "ReplicatedShardedState").into_iter().map(|f| format!("ReplicatedShardedState::{}", f)));
+    if names.iter().filter(|n| n.starts_with("ReplicatedShardMessage::")).count() < 8 || names.len() < 20 {
+        out.violation("C08:coverage:source-scan-failed", "the source scan found fewer mailbox messages / front-end functions than the files are known to hold", json!({"found": names}));
+    }
+    for n in names {
+        match how(&n) {
+            Some((counter, text)) => {
+                let ran = counter.is_empty() || out.dist.get(counter).copied().unwrap_or(0) > 0;
+                table.insert(n.clone(), format!("{}{}", text, if counter.is_empty() { String::new() } else { format!(" [{} = {}]", counter, out.dist.get(counter).copied().unwrap_or(0)) }));
+                if !ran {
+                    out.violation(&format!("C08:coverage:not-driven-in-this-run:{}", n), "a mailbox message / front-end function that the harness claims to drive did not run in this run (silently skipped)", json!({"name": n, "counter": counter}));
+                }
+            }
+            None => {
+                table.insert(n.clone(), "UNACCOUNTED".into());
+                out.violation(&format!("C08:coverage:mailbox-message-not-driven:{}", n), "a mailbox message of the replicated shard actor / a public function of the replicated front end exists in the source the harness was built against, but the harness neither drives it nor says why not", json!({"name": n}));
+            }
+        }
+    }
+    out.extra.insert("replicated_actor_and_front_end_coverage(derived from the source)".into(), json!(table));
+}
+
+/// the coverage self-audit of C08 against the eleven classes (DESIGN.md §4 C08)
+fn audit() -> serde_json::Value {
+    json!([
+      {"class": 1, "topic": "entry path / variant never driven",
+       "covered": "every place of the anchored files that creates or advances a stamp is counted in the source and matched with the model's op table (C08:coverage:stamp-site-not-modelled:*); every mailbox message of the replicated shard actor and every pub fn of ReplicatedShardedState is enumerated from the source, driven or explained, and the driven ones must have run in THIS run (C08:coverage:not-driven-in-this-run:*) — new: ExecuteReadonly, EvictExpired, DrainPendingDeltas, evict_expired_all_shards, key_count; every Command variant through the actor and through the state (as before)",
+       "open": "evict_expired_all_shards has no caller in the binaries: on a replicated node the executor's clock never moves (a TTL never fires) — recorded as an observation, time-dependent reads are outside C08"},
+      {"class": 2, "topic": "input alphabet", "covered": "values empty / binary; keys incl. non-ASCII; SET with and without EX; hashes with 1..2 fields; remote values of both kinds incl. tombstones", "open": ""},
+      {"class": 3, "topic": "comparison at equality",
+       "covered": "remote stamps below / at / above the local clock (times drawn around it), equal times from other replicas, the Lamport time at the top of the u64 range (MAX-3 … MAX: update and tick overflow — known finding C08:clock:u64-overflow; below the bound clock_u64_exact)",
+       "open": ""},
+      {"class": 4, "topic": "configuration", "covered": "consistency level Eventual / Causal (vector clock on / off); checkpoint through the real CheckpointWriter / Reader or handed over directly", "open": ""},
+      {"class": 5, "topic": "capacity thresholds", "covered": "the outbox capacity is C06's message level; 16 shards with separate clocks (keys on one shard / on several)", "open": ""},
+      {"class": 6, "topic": "fault kinds", "covered": "a panic inside the clock arithmetic is caught and is the finding; recovery that hands back only part of the state (own maximum legitimately gone); a command rejected by the executor", "open": ""},
+      {"class": 7, "topic": "history shapes",
+       "covered": "restart over every split of the history into checkpoint + deltas, checkpoint only, deltas only, deltas OVERLAPPING the checkpoint (a WAL that was not truncated), deltas in another order than issued, own deltas replayed through apply_remote_delta, FLUSHALL in the middle, second restart, writes after every recovery",
+       "open": ""},
+      {"class": 8, "topic": "node-global state", "covered": "the shard's Lamport clock is shared by all its keys: keys of one shard and of different shards; the vector clock in causal mode", "open": ""},
+      {"class": 9, "topic": "observations", "covered": "the stamp of every delta handed back, full snapshots, what a peer holding everything serves after merging the post-restart write, that non-writing mailbox messages leave the replication state alone", "open": ""},
+      {"class": 10, "topic": "finding signatures", "covered": "stale stamps are signed by the provenance of the stamp that was not exceeded (local / remote / recovered-checkpoint / recovered-delta); the overflow finding fires only in the boundary case", "open": ""},
+      {"class": 11, "topic": "harness fragility", "covered": "coverage counters must be positive in the run that claims them; source scans that fail or come out short are violations; the arithmetic of the build (checked / wrapping) is observed, not assumed", "open": ""}
+    ])
+}
+
 pub fn run(a: &Args) {
     let mut out = Out::new(&a.out);
     let mut rng = Rng::new(a.seed);
+    stamp_sites(&mut out);
+    clock_boundary(&mut out);
     let rt = tokio::runtime::Builder::new_current_thread().enable_all().build().unwrap();
     rt.block_on(async {
         // corpus first: the DESIGN.md §6.1 history (checkpoint-only recovery, then a write)
@@ -124,6 +314,7 @@ pub fn run(a: &Args) {
             system_history(&mut out, &mut r, None).await;
         }
     });
+    mailbox_coverage(&mut out);
     // coverage of the Command enum through the replicated actor / state
     {
         let mut rows: BTreeMap<String, serde_json::Value> = BTreeMap::new();
@@ -142,6 +333,7 @@ pub fn run(a: &Args) {
         out.extra.insert("command_variants_through_replicated_actor".into(), json!(rows));
         out.extra.insert("command_variants_total".into(), json!(rows.len()));
     }
+    out.extra.insert("audit".into(), audit());
     out.finish("case = one node history of 5..40 ops on a real ReplicatedShardActor: local SET[EX]/DEL/HSET/HDEL on 3 colliding keys, any other Command variant (every variant of the enum goes through the actor at least once per run: replicated writers, non-replicated writers, FLUSHDB/FLUSHALL and other key-less commands, reads — coverage table in the evidence), remote deltas (dominated values from peers 2,3 with times around the local clock), snapshots, restarts that recover the snapshot as checkpoint values (ApplyRecoveredState) or as deltas or a subset; distinct by the op text of the history; non-trivial iff it contains an effective local write issued after a remote/recovered value of the same key. System-level case = one history of 3..12 ops (SET[EX]/DEL/HSET/HDEL/INCR on 6 keys over 4 of the 16 shards, gossip from a peer) on a real ReplicatedShardedState, then for every split point: fresh state, apply_recovered_state(checkpoint at the split [half of them through the real CheckpointWriter/Reader], own deltas after it), 3..5 writes, full snapshot; non-trivial iff some post-restart write lands on a shard that recovered something");
 }
 
@@ -224,6 +416,29 @@ async fn system_sweep(out: &mut Out, rng: &mut Rng) {
             }
         }
     }
+    // evict_expired_all_shards / key_count: the eviction moves the executors' clocks only — the
+    // replication state of every shard (what is gossiped, checkpointed, recovered) and the stamps of
+    // the next writes must be as if it had not happened
+    let before = a.snapshot_state().await;
+    let kc = a.key_count().await;
+    let evicted = a.evict_expired_all_shards().await;
+    let after = a.snapshot_state().await;
+    out.count("sys:evict");
+    out.count_n("sys:evict:evicted", evicted as u64);
+    let canon = |m: &HashMap<String, ReplicatedValue>| snap_sorted(m).iter().map(|(k, v)| format!("{} {}", k, v.show())).collect::<Vec<_>>();
+    if canon(&before) != canon(&after) || kc != before.len() {
+        out.violation("C08:node:evict-changed-replication-state", "evict_expired_all_shards changed the replication state (or key_count disagrees with snapshot_state)", json!({"history": hist.clone(), "key_count": kc, "snapshot_keys": before.len()}));
+    }
+    let k = rng.pick(&keys).clone();
+    let _ = a.execute(Command::set(k.clone(), SDS::new(b"after-evict".to_vec()))).await;
+    for d in arx.drain() {
+        let m = MRv::from_real(&d.value);
+        if let Some(o) = last.get(&shard_of(&d.key)) {
+            if !(*o < (m.t, m.r)) {
+                out.violation("C08:issued-not-increasing", &format!("SET after evict_expired_all_shards acknowledged with stamp {:?} after {:?}", (m.t, m.r), o), json!({"history": hist.clone()}));
+            }
+        }
+    }
     out.case(&format!("SYS-SWEEP:{}", hist.join(",")), true);
 }
 
@@ -303,7 +518,7 @@ async fn history(out: &mut Out, rng: &mut Rng, mode: Mode, pool: &[Command]) {
             script[i]
         } else {
             if i as u64 >= steps && forced.is_empty() { break; }
-            if !forced.is_empty() && (i % 3 == 2 || i as u64 >= steps) { 20 } else { rng.below(13) as u8 }
+            if !forced.is_empty() && (i % 3 == 2 || i as u64 >= steps) { 20 } else { rng.below(14) as u8 }
         };
         i += 1;
         let key = if corpus { "k".to_string() } else { rng.pick(&KEYS).to_string() };
@@ -453,6 +668,39 @@ async fn history(out: &mut Out, rng: &mut Rng, mode: Mode, pool: &[Command]) {
                             e.push((s, "local"));
                         }
                     }
+                }
+                continue;
+            }
+            13 => {
+                // the other mailbox messages of the actor: none of them may touch the replication
+                // state or the Lamport clock (the model has no op for them: the next stamps and the
+                // final snapshot must come out as if they had not happened)
+                match rng.below(3) {
+                    0 => {
+                        let r = node.h.execute_readonly(Command::Get(key.clone())).await;
+                        let _ = r;
+                        out.count("msg:ExecuteReadonly");
+                        text.push_str("READONLY;");
+                    }
+                    1 => {
+                        // EvictExpired moves the EXECUTOR's clock (keys with a TTL may vanish from what is
+                        // served); the replication state keeps them — time-dependent reads are outside C08
+                        let t = redis_sim::simulator::VirtualTime::from_millis(rng.below(3) * 30_000);
+                        let n = node.h.evict_expired(t).await;
+                        out.count("msg:EvictExpired");
+                        out.count_n("msg:EvictExpired:evicted", n as u64);
+                        text.push_str("EVICT;");
+                    }
+                    _ => {
+                        let d = node.h.drain_pending_deltas().await;
+                        out.count("msg:DrainPendingDeltas");
+                        out.count_n("msg:DrainPendingDeltas:drained", d.len() as u64);
+                        text.push_str("DRAIN;");
+                    }
+                }
+                let after = node.h.get_snapshot().await;
+                if snap_sorted(&after).iter().map(|(k, m)| format!("{} {}", k, m.show())).collect::<Vec<_>>() != snap_sorted(&before).iter().map(|(k, m)| format!("{} {}", k, m.show())).collect::<Vec<_>>() {
+                    out.violation("C08:mailbox:non-writing-message-changed-replication-state", "ExecuteReadonly / EvictExpired / DrainPendingDeltas changed the replication state of the shard", json!({"history": text.clone()}));
                 }
                 continue;
             }
@@ -860,7 +1108,18 @@ async fn system_history(out: &mut Out, rng: &mut Rng, corpus: Option<u8>) {
         } else {
             Some(snap.clone())
         };
-        let deltas: Vec<ReplicationDelta> = own[*n_own..].iter().map(|i| i.delta.clone()).collect();
+        // the deltas recovered from segments / WAL: those after the checkpoint — sometimes also
+        // older ones (a WAL that was not truncated at the checkpoint: overlap), sometimes in
+        // another order than they were issued (segments and WAL entries are merged by the recovery)
+        let start = if corpus.is_none() && *n_own > 0 && rng.chance(1, 3) { *n_own - rng.range(1, *n_own as u64) as usize } else { *n_own };
+        if start < *n_own {
+            out.count("sys:recovery:deltas-overlap-checkpoint");
+        }
+        let mut deltas: Vec<ReplicationDelta> = own[start..].iter().map(|i| i.delta.clone()).collect();
+        if corpus.is_none() && deltas.len() > 1 && rng.chance(1, 4) {
+            rng.shuffle(&mut deltas);
+            out.count("sys:recovery:deltas-reordered");
+        }
         // recovered stamps per shard, with provenance; the op line (checkpoint in ITS iteration order)
         let mut recovered: BTreeMap<usize, Vec<(St, &'static str, String)>> = BTreeMap::new();
         // what a peer holds that has everything the node recovered: the merge of it, per key
